@@ -22,7 +22,7 @@ VARIABLES l, fails, m, pred, drift, ncase, cnt, prevS, seen, rs, fm, fc, done
 tvars == <<l, fails, m, pred, drift, ncase, cnt, prevS, seen, rs, fm, fc, done>>
 
 OpOf(r) == [side |-> r.side, op |-> r.op, phase |-> r.phase, res |-> r.res, anc |-> r.anc, tree |-> r.tree]
-KnownEv == {"Begin", "Cmd", "EndpointOp", "Edit", "Roots", "Disk", "State", "Stream", "Break", "End", "CaseAborted", "Infra",
+KnownEv == {"Begin", "Cmd", "EndpointOp", "Edit", "Roots", "Disk", "State", "Stream", "Break", "Interrupt", "End", "CaseAborted", "Infra",
             "FBegin", "FCmd", "FEndpointOp", "FDisk", "FState", "FConns", "FEnd", "FInfra"}
 
 \* ------------------------------------------------------------------ forwarding sessions (FwdLifecycle.tla): the same
@@ -60,6 +60,7 @@ Apply(mm, r) ==
     [] r.ev = "Cmd" /\ r.phase = "return" -> MRet(mm, r.id, r.kind, r.result)
     [] r.ev = "EndpointOp" -> MOp(mm, OpOf(r))
     [] r.ev = "Edit" -> MEdit(mm)
+    [] r.ev = "Break" -> MBreak(mm)
     [] r.ev = "Roots" /\ r.stable -> MRoots(mm, RootsOf(r.alpha, r.beta))
     [] OTHER -> mm
 
@@ -68,11 +69,15 @@ Judge(i, r, m0, m1) ==
      Chk(Want, i, "C29_PausedQuiet", ~(m1.badOp /\ ~m0.badOp))
   \o Chk(Want, i, "C29_FlushFresh", ~(m1.badFlush /\ ~m0.badFlush))
   \o Chk(Want, i, "C11_Halts", ~(m1.haltBad /\ ~m0.haltBad))
+  \* the same failures, labelled, when the halt was due only by the state both disks had agreed on (as walked by the
+  \* driver), not by the ancestor the controller handed to Scan: the controller lost history
+  \o Chk(Want, i, "C11_HaltsVsAgreedDisks", ~(m1.haltBad /\ ~m0.haltBad /\ ViaAgreed(m0)))
   \* observations are judged only when nothing else was journalled while they were taken (r.stable)
   \o (IF r.ev = "State" /\ r.stable /\ r.listErr = "" THEN
            Chk(Want, i, "C29_PauseSurvivesRestart", C29_PauseSurvivesRestart(m0, r))
         \o Chk(Want, i, "C29_TerminatedGone", C29_TerminatedGoneList(m0, r))
         \o Chk(Want, i, "C11_Halts", C11_Status(m0, r))
+        \o Chk(Want, i, "C11_HaltsVsAgreedDisks", ViaAgreed(m0) => C11_Status(m0, r))
       ELSE <<>>)
   \o (IF r.ev = "Disk" /\ r.stable THEN
            Chk(Want, i, "C29_PauseSurvivesRestart", C29_PauseOnDisk(m0, r))
@@ -82,6 +87,7 @@ Judge(i, r, m0, m1) ==
   \o (IF r.ev = "Roots" /\ r.stable THEN
            Chk(Want, i, "C29_ResetKeepsRoots", C29_ResetKeepsRoots(m0, RootsOf(r.alpha, r.beta)))
         \o Chk(Want, i, "C11_Halts", C11_Roots(m0, RootsOf(r.alpha, r.beta)))
+        \o Chk(Want, i, "C11_HaltsVsAgreedDisks", ViaAgreed(m0) => C11_Roots(m0, RootsOf(r.alpha, r.beta)))
       ELSE <<>>)
   \o (IF (r.ev = "Cmd" /\ r.phase = "timeout") \/ (r.ev = "End" /\ ~r.allBack)
       THEN Chk(Want, i, "C29_AllReturn", FALSE) \o Chk(Want, i, "C11_AllReturn", FALSE) ELSE <<>>)
@@ -95,7 +101,8 @@ Drift(r, p) == IF r.ev = "Cmd" /\ r.phase = "return" /\ r.id \in DOMAIN p /\ p[r
 \* how often the antecedents of the properties were established by real observations (vacuity control)
 Cnt0 == [halts |-> 0, quiets |-> 0, flushok |-> 0, terms |-> 0, resets |-> 0, pausedobs |-> 0, cycles |-> 0,
          stchk |-> 0, stdrift |-> 0, stream |-> 0, strdrift |-> 0, strdirect |-> 0,
-         recyc |-> 0, recdrift |-> 0, rwaits |-> 0, rwdrift |-> 0, breaks |-> 0, rdchk |-> 0, rdnot |-> 0]
+         recyc |-> 0, recdrift |-> 0, rwaits |-> 0, rwdrift |-> 0, breaks |-> 0, rdchk |-> 0, rdnot |-> 0,
+         agreed |-> 0, haltag |-> 0, intr |-> 0, intrtx |-> 0, agdrift |-> 0]
 \* scan retry timing (the trace has clocks, the monitor has none): rs = [n: try-again scans in a row, t: when the last
 \* one returned]; the scan that follows two or more in a row must start at least rescanWaitDuration later
 RescanWaitMs == 4900
@@ -134,7 +141,15 @@ Bump(c, r, m0, m1, p, x) ==
    \* true of the controller as coded after a failed save: counted, see docs)
    breaks |-> c.breaks + (IF r.ev = "Break" /\ r.on THEN 1 ELSE 0),
    rdchk |-> c.rdchk + (IF r.ev = "Disk" /\ r.stable /\ m0.pz = "no" /\ ~m0.term /\ m0.infl = {} THEN 1 ELSE 0),
-   rdnot |-> c.rdnot + (IF r.ev = "Disk" /\ r.stable /\ ~ResumeOnDisk(m0, r) THEN 1 ELSE 0)]
+   rdnot |-> c.rdnot + (IF r.ev = "Disk" /\ r.stable /\ ~ResumeOnDisk(m0, r) THEN 1 ELSE 0),
+   \* agreed states established from the walker; halts due while an agreed state was known; interrupts injected;
+   \* conformance: whenever both are known at a scan, the ancestor handed to Scan IS the agreed state
+   agreed |-> c.agreed + (IF m1.agreed.set /\ (~m0.agreed.set \/ m0.agreed.tree # m1.agreed.tree) THEN 1 ELSE 0),
+   haltag |-> c.haltag + (IF m1.halted /\ ~m0.halted /\ m0.agreed.set THEN 1 ELSE 0),
+   intr |-> c.intr + (IF r.ev = "Interrupt" THEN 1 ELSE 0),
+   intrtx |-> c.intrtx + (IF r.ev = "Interrupt" /\ r.phase = "transition" THEN 1 ELSE 0),
+   agdrift |-> c.agdrift + (IF r.ev = "EndpointOp" /\ r.op = "Scan" /\ r.phase = "call" /\ m0.agreed.set /\ r.anc # m0.agreed.tree
+                            THEN 1 ELSE 0)]
 
 \* the previous sample of the stream; forgotten where the state object itself is replaced (a new manager) or gone
 NextSample(r, p) ==
@@ -170,6 +185,9 @@ Finish == /\ l = NRec + 1 /\ ~done
                                         stat_rescan_waits |-> cnt.rwaits, stat_rescan_wait_drift |-> cnt.rwdrift,
                                         stat_persistence_faults |-> cnt.breaks, stat_resume_disk_checked |-> cnt.rdchk,
                                         stat_resume_not_persisted |-> cnt.rdnot,
+                                        stat_agreed_states |-> cnt.agreed, stat_halts_with_agreed |-> cnt.haltag,
+                                        stat_interrupts |-> cnt.intr, stat_interrupts_in_transition |-> cnt.intrtx,
+                                        stat_ancestor_vs_agreed_drift |-> cnt.agdrift,
                                         stat_fwd_cases |-> fc.cases, stat_fwd_quiets |-> fc.quiets, stat_fwd_quiet_drift |-> fc.quietdrift,
                                         stat_fwd_pause_checked |-> fc.pausechk, stat_fwd_pause_drift |-> fc.pausedrift,
                                         stat_fwd_term_checked |-> fc.termchk, stat_fwd_term_drift |-> fc.termdrift,
